@@ -195,5 +195,23 @@ CLAIMS = {
                'invariants (rehash lemma for bucket expansion); extracted-model differential correspondence and extracted spec oracles against '
                'the rebuilt libks sources',
  },
+
+ 'C06': {
+  'text': 'Coq theorems (closed under the global context): for every configuration view (variables as config_interpolate_lookup renders them, step list, hook list), trace flag and step name, '
+          'robsd-exec hands execvp exactly the configured list of the FIRST step of that name, each element rendered as a whole by the '
+          'substitution relation of C09, empty renderings dropped, nothing added or split (argv embeds monotonically into the configured list); '
+          'robsd-hook likewise without dropping, and executes nothing when no hook is configured. The exit status mapping exitstatus(), translated '
+          'from clang\'s AST with glibc\'s W* macros expanded, is total on all integers and equals: code passed through, 128+signal, 124 on SIGALRM, '
+          '0 iff exited 0. Unknown step / uninterpolatable schedule / failing execvp give a non-zero status with a diagnostic and never a crash '
+          '(C06_unresolvable_is_error, for find_step as the source has it now; it stops compiling if the NULL check is removed; the shipped code crashed - D5, repaired in 0771f90, '
+          'witness kept as C06_unresolvable_is_error_refuted about the unchecked variant).',
+  'note': 'Observed, not proved: that the C code behaves like the model (process-level correspondence on generated configurations in all five modes, argv dumped by a probe, '
+          'every exit code, every non-stopping signal, regress-timeout; compiled exitstatus() vs its translation on 196k pairs each run). Assumed: '
+          'the kernel (fork/execvp/waitpid/signals) as a universally quantified function from argv to "exec failed" or a wait status; glibc\'s wait '
+          'status encoding; the configuration parser (C08) producing the view the harness builds beside each file; C09\'s interpolation model. '
+          'A stopped step is not exercised. execvp(NULL) when every element renders empty is libc-undefined and only checked as "non-zero + diagnostic".',
+  'technique': 'Coq: structural induction over the configured lists against the Subst relation, arithmetic proof of the translated leaf function, variant switch by translator flag; '
+               'translator t_exec.py; extracted model + oracle; differential process-level harness with tools/argvprobe.c',
+ },
 }
 NOT_APPLICABLE = {p: PENDING for p in ['C%02d' % i for i in range(1, 21)] if p not in CLAIMS}
